@@ -5,27 +5,50 @@
 package tasksim
 
 import (
+	"os"
+	"runtime"
+	"runtime/debug"
 	"testing"
 
 	"verif/sim"
 )
 
+// The garbage collector never runs while a bubble is active: an allocating goroutine that is made to
+// assist a running collection parks in the middle of whatever it is doing (even inside a map write), which
+// is a scheduling decision the simulator does not own.  Collection is switched off and forced between runs.
+func TestMain(m *testing.M) {
+	debug.SetGCPercent(-1)
+	os.Exit(m.Run())
+}
+
+var runsSinceGC int
+
+func gcBetweenRuns(run func(*sim.Ctx)) func(*sim.Ctx) {
+	return func(c *sim.Ctx) {
+		if runsSinceGC++; runsSinceGC >= 64 {
+			runsSinceGC = 0
+			runtime.GC()
+		}
+		run(c)
+	}
+}
+
 func TestC30(t *testing.T) {
-	sim.Main(t, sim.Spec{Property: "C30", Engine: "E3-tasks", Run: RunSemaphore})
+	sim.Main(t, sim.Spec{Property: "C30", Engine: "E3-tasks", Run: gcBetweenRuns(RunSemaphore)})
 }
 
 func TestC15(t *testing.T) {
-	sim.Main(t, sim.Spec{Property: "C15", Engine: "E3-tasks", Run: RunProcessor})
+	sim.Main(t, sim.Spec{Property: "C15", Engine: "E3-tasks", Run: gcBetweenRuns(RunProcessor)})
 }
 
 func TestC16(t *testing.T) {
-	sim.Main(t, sim.Spec{Property: "C16", Engine: "E3-tasks", Run: RunFetcher})
+	sim.Main(t, sim.Spec{Property: "C16", Engine: "E3-tasks", Run: gcBetweenRuns(RunFetcher)})
 }
 
 func TestC17(t *testing.T) {
-	sim.Main(t, sim.Spec{Property: "C17", Engine: "E3-tasks", Run: RunSeeder})
+	sim.Main(t, sim.Spec{Property: "C17", Engine: "E3-tasks", Run: gcBetweenRuns(RunSeeder)})
 }
 
 func TestC18(t *testing.T) {
-	sim.Main(t, sim.Spec{Property: "C18", Engine: "E3-tasks", Run: RunLeechers})
+	sim.Main(t, sim.Spec{Property: "C18", Engine: "E3-tasks", Run: gcBetweenRuns(RunLeechers)})
 }
